@@ -314,5 +314,49 @@ def run(chk, facts, info):
              min_instances=3)
     if selection_rule(chk, facts, 'C05-R8', 'p2bin.c', 'MeasureFile') < 3:
         raise AnalysisBroken('MeasureFile no longer updates start, stop and granularity')
+    chk.rule('C05-R9', 'p2bin.c ProcessFile(): the byte-lane filter of the copy loop and the position the record is '
+             'written to depend on the same lane parameters: every lane global (ANDMask, ANDEq) read by the filter '
+             'condition is also read by the computation of the fseek() offset on the target file (directly or in a '
+             'function it calls) - an offset that only divides by the lane divisor places a record that starts between '
+             'two selected bytes one slot too low', min_instances=1)
+    pf = facts.func('p2bin.c', 'ProcessFile')
+    lane = {'p2bin.c:ANDMask', 'p2bin.c:ANDEq'}
+    filt_reads = set()
+    for bid, bl in pf.blocks.items():
+        c = bl.get('cond')
+        if c is not None:
+            ks = {P.gkey(pf, m[0], m[1]) for m in walk(c) if isinstance(m, (list, tuple)) and m and m[0] in ('g', 'gs')}
+            if ks & lane:
+                filt_reads |= ks & lane
+    if not filt_reads:
+        raise AnalysisBroken('lane filter of ProcessFile not found')
+    n9 = 0
+    for b, i, ln, c in pf.calls('fseek'):
+        if not mentions(c[2][0], lambda x: var_is(x, {'TargFile'})):
+            continue
+        n9 += 1
+        off = c[2][1]
+        rd = {P.gkey(pf, m[0], m[1]) for m in walk(off) if isinstance(m, (list, tuple)) and m and m[0] in ('g', 'gs')}
+        for m in walk(off):
+            if isinstance(m, (list, tuple)) and m and m[0] == 'call' and callee_name(m):
+                g = P.resolve(pf.unit, callee_name(m))
+                if g is not None:
+                    for f2 in P.closure([g]):
+                        rd |= {k for (k, *_r) in P.reads(f2)}
+        # locals in the offset: take their definitions
+        for m in walk(off):
+            if isinstance(m, (list, tuple)) and m and m[0] == 'l':
+                for b2, i2, l2, m2 in pf.nodes():
+                    if is_assign(m2) and strip(m2[2]) == ('l', m[1]):
+                        rd |= {P.gkey(pf, x[0], x[1]) for x in walk(m2[3]) if isinstance(x, (list, tuple)) and x and x[0] in ('g', 'gs')}
+        missing = sorted(k.split(':')[-1] for k in filt_reads - rd)
+        ok = not missing
+        chk.ob('C05-R9', 'p2bin.c:ProcessFile:placement-vs-filter', ok, pf.loc(ln),
+               'offset computed from %s' % ', '.join(sorted(k.split(':')[-1] for k in rd & (lane | {'p2bin.c:SizeDiv'}))) if ok else
+               'the copy loop selects bytes by (address & ANDMask) == ANDEq, but the target offset does not depend on %s: '
+               'a record that does not start on a selected byte is written one slot too low (-m EVEN, record at an odd '
+               'address)' % ', '.join(missing))
+    if not n9:
+        raise AnalysisBroken('target positioning of ProcessFile not found')
     chk.note('Decided: filter binding, divisors, pre-fill order, overlap-warning control dependence, lane divisor '
              'constants, measured inputs of the pre-fill. Not decided: window, lane and address arithmetic per byte.')
